@@ -53,6 +53,16 @@ def gen(tier, rng):
                 for c in range(256):
                     for ty in ("i16", "u16", "i32", "u32"):
                         out.append("prim der %02x%02x%02x int %s" % (a, b, c, ty))
+    # ---- the same decoders behind a source that grants exactly what is requested
+    import scripts
+    for c in [bytes([a, b]) for a in HEADS for b in HEADS] + [bytes([a, b, 0x12]) for a in HEADS for b in HEADS] + longer[::7]:
+        enc = b"\x02" + length(len(c)) + c
+        m = rng.choice(modes)
+        for ty in TYS:
+            for src in ("stingy", "chunk1"):
+                out.append("run %s %s %s tpi u2 [ int %s ]" % (m, src, hx(enc), ty))
+        for rd in ("T u8", "T u16", "T u32", "T u64", "tv X u8", "T skipu8if 127", "T integer", "T unsigned"):
+            out.append("run %s stingy %s %s" % (m, hx(enc), rd))
     # ---- bool / null
     for m in modes:
         out.append("prim %s - bool" % m)
